@@ -145,3 +145,28 @@ impl Ord for Keyed {
         self.key.cmp(&o.key)
     }
 }
+
+/// A 32-byte array key/value (the public-key-like type the crate is typically used with). Only the
+/// first byte carries the harness's small universe, so that the lexicographic order of the array
+/// and the numeric order of its little-endian reading coincide.
+#[repr(transparent)]
+#[derive(Copy, Clone, Default, Debug, PartialEq, Eq, PartialOrd, Ord, Hash, Pod, Zeroable)]
+pub struct A32(pub [u8; 32]);
+impl Num for A32 {
+    const SIZE: usize = 32;
+    const ALIGN: usize = 1;
+    const SIGNED: bool = false;
+    const NAME: &'static str = "a32";
+    fn from_i(i: i128) -> Self {
+        let mut a = [0u8; 32];
+        a[0] = i as u8;
+        A32(a)
+    }
+    fn to_i(self) -> i128 {
+        let mut x = 0i128;
+        for j in 0..15 {
+            x |= (self.0[j] as i128) << (8 * j);
+        }
+        x
+    }
+}
